@@ -32,6 +32,7 @@ import typing
 from typing import Any, Union
 
 import yaml
+from mc import models
 
 P = 'tag:yaml.org,2002:'
 
@@ -56,7 +57,7 @@ def parse_scalar(tag, value):
     if f is None:
         raise CtorFail('no constructor for ' + tag)
     try:
-        return f(yaml.ScalarNode(tag, value))
+        return f(yaml.ScalarNode(tag, str(value)))      # str(): drop the QuotedStr marker
     except yaml.YAMLError as e:
         raise CtorFail(str(e))
 
@@ -399,19 +400,21 @@ class Ref:
                 if n[0] != 's':
                     raise Reject('strlike')
                 try:
-                    return R(n[2])
+                    return R(str(n[2]))
                 except Exception:
                     raise Reject('ctor raised')
             return self.construct(n, R)
         if R is pathlib.Path:
-            return pathlib.Path(n[2])
+            return pathlib.Path(str(n[2]))
         st = self.scalar_tag(R)
         return parse_scalar(P + st, n[2])
 
-    def savorize(self, n, C):
+    def savorize(self, n, C, done=None):
+        done = set() if done is None else done
+        done.add(C)
         for b in C.__bases__:                                                 # K8
-            if b in self.reg:
-                n = self.savorize(n, b)
+            if b in self.reg and b not in done:    # a base reached along two paths is savorized once
+                n = self.savorize(n, b, done)
         if '_ops_savorize' in C.__dict__:
             for op in C.__dict__['_ops_savorize']:
                 n = ref_op(n, op)
@@ -424,7 +427,8 @@ class Ref:
         k, tag, v = n
         if k == 's':
             if not tag.startswith(P):
-                tag = self.resolve(v)
+                # the tag is ignored: a plain scalar is whatever its text resolves to, a quoted one is a string
+                tag = P + 'str' if isinstance(v, models.QuotedStr) else self.resolve(v)
             return (k, tag, v)
         if k == 'q':
             return (k, P + 'seq', tuple(self.strip(i) for i in v))
